@@ -1360,7 +1360,7 @@ func c18PinnedStats(res config.ClusterResources) (byName, bySelector, maxInOne i
 func TestVerif_C18(t *testing.T) {
 	rule := "generated snapshots (3-5 objects of every listed kind, pools pinned to one namespace by name and by selector, service selectors, overlapping advertisements) loaded by toConfig in all pool permutations x shuffles of the other kinds and 20 repetitions, then reconciled repeatedly by the real ConfigReconciler/PoolReconciler over a randomly ordered List; " +
 		"non-trivial = accepted snapshot with >= 3 pools of which >= 2 pinned to one namespace, distinct by resource content"
-	vfMain(t, "C18", vfSizes{Quick: 200, Thorough: 2000}, rule, func(c *vfCase) {
+	vfMain(t, "C18", vfSizes{Quick: 320, Thorough: 2400}, rule, func(c *vfCase) {
 		g := &c18Gen{r: c.R.Fork()}
 		s := g.snapshot()
 		res := s.Res
